@@ -221,8 +221,13 @@ impl Scenario for C06 {
 
     fn actions(&self, ctx: &Ctx, m: &Model) -> Vec<Act> {
         let mut v = vec![];
-        if m.advances < 1 {
+        // two kinds of waiting, each once: ledgers pass with next to no time (every temporary entry
+        // written so far is gone afterwards), and - on the gateway - the rotation delay passes
+        if m.advances & 1 == 0 {
             v.push(Act { ep: Ep::AdvanceLedger, by: By::Nobody });
+        }
+        if ctx.kind == 0 && m.advances & 2 == 0 {
+            v.push(Act { ep: Ep::AdvanceLedger, by: By::P(0) });
         }
         for ep in self.eps(ctx.kind) {
             // payouts, mints and rotations are bounded so that the state space stays finite
@@ -250,11 +255,16 @@ impl Scenario for C06 {
             out.kind = "advance";
             out.accepted = true;
             w.set_seq(w.seq() + 20);
-            // on the gateway exactly the minimum rotation delay passes: from then until the next
-            // rotation (bypassed or not) anybody may rotate with a proof of the latest set
-            w.set_time(w.now() + if ctx.kind == 0 { 100_000 } else { 100 });
-            m.elapsed = true;
-            m.advances += 1;
+            if a.by == By::Nobody {
+                w.set_time(w.now() + 100);
+                m.advances |= 1;
+            } else {
+                // exactly the minimum rotation delay passes: from then until the next rotation
+                // (bypassed or not) anybody may rotate with a proof of the latest set
+                w.set_time(w.now() + 100_000);
+                m.elapsed = true;
+                m.advances |= 2;
+            }
             return;
         }
         out.kind = match a.ep {
